@@ -87,7 +87,7 @@ def parseOp (t : List String) : Option Op :=
       | [em, src, to, amt] =>
         let em' ← emitterOf? em
         let n ← amt.toInt?
-        logs := logs ++ [{ emitter := em', src := src, to := dash to, amount := n }]
+        logs := logs ++ [{ emitter := em', src := src, rcv := dash to, amount := n }]
       | _ => none
     some (.evmTx target logs)
   | "token" :: "evm_fault" :: r => some (.evmFault (arg r "mode"))
